@@ -236,12 +236,29 @@ def l3(repo, res, canon):
             if idx:
                 break
     # release implementation: idle machines go back to available and the key is dropped
+    # (judged by effects, with the Cluster helpers it calls inlined -- not by helper names)
+    from ..paths import expanded_paths, feasible
+    from .cluster_units import IDLE_PREFIX, POOLS, inline_cluster_only
     rel = repo.func('Cluster.release_batch_resources')
-    called = {call_name(n) for n in walk_no_nested(rel.node) if isinstance(n, ast.Call)}
-    need = {'_update_available_resources', '_reset_idle_resources'}
-    (res.ok if need <= called else res.bad)(
+    avail = [k for k, v in POOLS.items() if v == 'available'][0]
+    both = drops_only = 0
+    for p in expanded_paths(repo, rel, depth=3, want=inline_cluster_only):
+        if not feasible(p) or p.exit == 'raise':
+            continue
+        effs = path_effects(canon, p.events)
+        drops = [ef for ef in effs if ef.loc == IDLE_PREFIX and ef.kind == 'pop']
+        back = [ef for ef in effs if ef.loc == avail and ef.kind in ('append', 'extend')]
+        if drops and back:
+            both += 1
+        elif drops and not any(e.kind == 'for0' for e in p.events):
+            # (a skipped return loop = an empty reservation: nothing to give back)
+            drops_only += 1
+    ok3 = both > 0 and drops_only == 0
+    (res.ok if ok3 else res.bad)(
         'C05.L3', rel, rel.node, 'release returns machines and drops the reservation',
-        'ok' if need <= called else 'release_batch_resources no longer calls %s' % sorted(need - called))
+        '%d path(s) append the reserved machines to available and drop the key' % both if ok3 else
+        'release_batch_resources does not both return the reserved machines to the available pool and drop the '
+        'reservation key (%d path(s) do both, %d only drop the key)' % (both, drops_only))
 
 
 # ---------------------------------------------------------------------- L4a
